@@ -38,6 +38,7 @@ RULE = (
     "under an injected fault; distinct = different (subcommand, sorted option names, input route, output route, fault kind, "
     "exit class) tuples"
 )
+STATE_MEASURE = "abstract state per invocation = (subcommand, sorted non-default option names, input route, output route, exit class)"
 ASSUMPTIONS = [
     "click CliRunner after a canonical reset (default backend/optimizer, empty file cache) is a faithful model of one process per command; validated against real subprocesses on a sample in the thorough tier",
     "the reference re-implements the documented meaning of each option by hand (set_backend(name, optimizer(**optconf)), ws.model(measurement_name, patches), hypotest(test_poi, test_stat, calctype), Workspace.prune/rename/combine/sorted, utils.digest, PatchSet[...]/apply/verify, readxml.parse/writexml)",
@@ -164,8 +165,9 @@ def _gen_cli(rng, cfg, files, wsdocs, nout):
 
 
 def gen(rng: random.Random, k: int, tier: str) -> dict:
+    deep = tier == "thorough" and k % 3 == 2   # thorough: every third segment is a three times longer history
     cfg = {"fault_rate": rng.choice([0.0, 0.0, 0.15, 0.3]), "infer_w": rng.choice([0.0, 0.5, 1.0]), "be_w": rng.choice([0.0, 0.0, 0.5, 1.5]),
-           "xml_w": rng.choice([0.0, 1.0]), "len": rng.randint(4, 12), "orig_ws": [], "ps_ws": {}, "ps_names": {}}
+           "xml_w": rng.choice([0.0, 1.0]), "len": rng.randint(4, 12) * (3 if deep else 1), "orig_ws": [], "ps_ws": {}, "ps_names": {}}
     ops, files, wsdocs = [], {}, {}
     nws = rng.randint(1, 2)
     for i in range(nws):
